@@ -57,6 +57,19 @@ async def _client_case(rng, desc):
     kw = dict(keep_alive_period=timedelta(milliseconds=desc['ka_ms']),
               max_lifetime_period=timedelta(milliseconds=desc['ml_ms']),
               data_encoding=desc['_data_enc'], metadata_encoding=desc['_md_enc'], honor_lease=desc['lease'])
+    if desc.get('lease_pub'):
+        # the client is also a responder: a lease publisher that emits inside subscribe() or a tick later
+        from rsocket.lease import DefinedLease
+
+        class Pub:
+            def subscribe(self, subscriber):
+                lease = DefinedLease(maximum_request_count=5, maximum_lease_time=timedelta(seconds=3))
+                if desc['lease_pub'] == 'sync':
+                    subscriber.on_next(lease)
+                else:
+                    asyncio.get_event_loop().call_soon(subscriber.on_next, lease)
+
+        kw['lease_publisher'] = Pub()
     if desc['payload'] != 'none':
         d = rng.randbytes(desc['pl_d']) if 'd' in desc['payload'] else None
         m = rng.randbytes(desc['pl_m']) if 'm' in desc['payload'] else None
@@ -256,6 +269,7 @@ def run_case(gen, idx, rng, tier):
             # lifetimes below the connection delay make the client give up before it ever connects (nothing to judge)
             'ml_ms': rng.choice([m for m in TD_MS if m >= 1000] + [rng.randrange(1000, 10 ** 7)]),
             'lease': rng.random() < 0.25,
+            'lease_pub': None,
             'payload': rng.choice(['none', 'd', 'm', 'dm']), 'pl_d': rng.choice([1, 20, 64, 300]),
             'pl_m': rng.choice([1, 20, 64, 300]),
             'connect': rng.choice([('none',), ('ticks', 1), ('ticks', 2), ('ticks', 3), ('virtual', 0.01)]),
@@ -264,6 +278,8 @@ def run_case(gen, idx, rng, tier):
                          for _ in range(rng.choice([0, 1, 2, 3, 5]))],
             'data_encoding': repr(d_enc), 'metadata_encoding': repr(m_enc),
             '_data_enc': d_enc, '_md_enc': m_enc, '_data_name': d_name, '_md_name': m_name}
+    if desc['lease']:
+        desc['lease_pub'] = rng.choice([None, 'sync', 'tick'])
     # keepalives far apart so that they do not interleave with the frames under test
     if desc['ka_ms'] < 500:
         desc['requests'] = desc['requests'][:2]
